@@ -1048,7 +1048,7 @@ func (x *Exec) codeAccess(fr *Frame, st *State, p Ptr, write bool, pos token.Pos
 		}
 		return
 	}
-	if p.Fresh || p.Root == nil {
+	if p.Root == nil {
 		return
 	}
 	_, key, _, err := typeAtPath(p.Root, p.Path)
@@ -1058,6 +1058,11 @@ func (x *Exec) codeAccess(fr *Frame, st *State, p Ptr, write bool, pos token.Pos
 	rk := rootKey(p.Root)
 	for _, h := range x.P.specs.Hooks {
 		if h.Elems || h.rootKey != rk {
+			continue
+		}
+		// stores into an object nobody else can see yet: only hooks that record
+		// the written value (no `this`) apply
+		if p.Fresh && !(h.Kind == "onwrite" && !strings.Contains(h.Src, "this")) {
 			continue
 		}
 		if key == h.Key || strings.HasPrefix(key, h.Key+".") || strings.HasPrefix(h.Key, key+".") || len(p.Path) == 0 {
@@ -1071,6 +1076,9 @@ func (x *Exec) applyHook(fr *Frame, st *State, h *Hook, this Ptr, write bool, po
 	env.noLocals = true
 	env.vars["this"] = this
 	env.vars["changed"] = Scalar{T: "true", Typ: boolT}
+	if write && x.hookNew != nil {
+		env.vars["value"] = x.hookNew
+	}
 	if write && x.hookNew != nil && x.hookPtr != nil {
 		// changed: does the store alter the stored value?
 		func() {
